@@ -123,6 +123,12 @@ type Config struct {
 	MaxSteps  int           // scheduling decisions per execution (0 = 200000)
 	Horizon   time.Duration // timers later than this never fire (0 = 1h)
 	LogEvents bool
+	// DelayBounded switches from preemption bounding to delay bounding (Emmi,
+	// Qadeer, Rakamaric 2011): the default scheduler is deterministic (keep
+	// running the current thread, else the lowest-id enabled thread, first ready
+	// select case) and EVERY other alternative costs one unit of P, also when
+	// the running thread has blocked.
+	DelayBounded bool
 	// StateHash, if set, switches the state fingerprint from happens-before
 	// hashing to observational hashing: fingerprint = per-thread hashes of every
 	// value the thread has observed through the shims (Obs) combined with
@@ -545,7 +551,11 @@ func (s *Sched) schedule() *Thread {
 			} else {
 				cp := ChoicePoint{N: n, Costs: make([]CostKind, n)}
 				for i, tr := range trs {
-					if curEnabled && tr.t != s.cur && !(tr.partner != nil && tr.partner == s.cur) {
+					if s.cfg.DelayBounded {
+						if i > 0 {
+							cp.Costs[i] = CostP
+						}
+					} else if curEnabled && tr.t != s.cur && !(tr.partner != nil && tr.partner == s.cur) {
 						cp.Costs[i] = CostP
 					}
 				}
